@@ -87,8 +87,10 @@ def size_leaf(t):
         x = t[1] if t[0] == 'load' else t
         n = x[2] if x[0] == 'field' else None
         return isinstance(n, str) and (n.endswith('_size') or n.endswith('size'))
-    if t[0] == 'mutated' or t[0] == 'update':
-        return False
+    if t[0] == 'call' and isinstance(t[1], str) and t[1] == 'core::sync::atomic::Atomic::load':
+        return True         # event counters (2^64 events)
+    if t[0] == 'field' and t[1][0] == 'call' and 'MetricSink>::stats' in str(t[1][1]):
+        return True
     return False
 
 
@@ -102,10 +104,11 @@ def check(ctx, rep):
     inv_ok = False
     if m.ok:
         before = len(rep.violations())
-        W.rule_M1(m, rep)
+        # premises of `written <= capacity` only (a weaker invariant than I): flush-before-overfull, counting, reset
+        # value, construction, frame.  The *order* of reset and inner flush (M8) does not matter for this bound.
         W.rule_M2(m, rep, 'must')
-        W.rule_M4_M5_M6(m, rep, want=('M4', 'M5'))
-        W.rule_M8(m, rep)
+        W.rule_M4_M5_M6(m, rep, want=('M5',))
+        rule_M8_weak(m, rep)
         W.rule_M9(m, rep)
         W.rule_M10(m, rep)
         inv_ok = len(rep.violations()) == before
@@ -166,6 +169,14 @@ def check(ctx, rep):
     V.rule_units_and_guard(ctx, rep, units=False)
 
 
+def rule_M8_weak(m, rep, rid='M8w'):
+    body = W.inl(m.cad, m.flush)
+    T = Terms(body)
+    sts = store_sites(T, m.f_written)
+    bad = [(b_, i_, v) for b_, i_, v in sts if v != ('const', 'usize', '0', None)]
+    rep.ob(rid, 'flush-only-resets', not bad, m.flush.where(), 'flush stores only 0 to `%s`' % m.f_written if not bad else 'flush stores %s to %s' % ([fmt(v) for _, _, v in bad], m.f_written))
+
+
 def discharge(ctx, m, inv_ok, cr, b, bi, kind, term, T):
     """returns (True, 'Dk: why') | (False, why) | (None, '')"""
     if kind.startswith('resource:'):
@@ -221,7 +232,7 @@ def discharge(ctx, m, inv_ok, cr, b, bi, kind, term, T):
         if m is not None and m.ok and b.path == m.write.path:
             if m.atom(a) == 'C' and m.atom(c) == 'W':
                 if inv_ok:
-                    return True, 'D1: capacity - written >= 0 by invariant I (written <= capacity), premises M1,M2,M4,M5,M8,M9,M10 hold'
+                    return True, 'D1: capacity - written >= 0 by invariant I (written <= capacity), premises M2,M5,M8w,M9,M10 hold'
                 return False, '`capacity - written` can underflow: the premises of invariant I (written <= capacity) do not hold on this tree (see the M-rule violations)'
         # (3) unsigned sum containing L, minus small const, under a guard L >= 1
         if c[0] == 'const' and c[2] in ('1',):
